@@ -14,6 +14,7 @@ structure Abs where
   p1 : List Int := []
   a0 : List Int := []
   a1 : List Int := []
+deriving DecidableEq, Repr
 
 namespace Abs
 def getL (s : Abs) (v : Nat) : List Int := if v = 0 then s.l0 else s.l1
